@@ -57,6 +57,10 @@ func Run(id, tier, only string) (code int) {
 	}
 	c := &Ctx{P: p, R: r, Tier: tier}
 	e.run(c)
+	if os.Getenv("VERIF_SELFTEST") != "0" && tier == "thorough" {
+		st := SelfTest(id, false)
+		r.Extra["selftest_variants"] = st
+	}
 	if tier == "thorough" {
 		// second pass under a 32-bit int model
 		p32, err := load.Load(load.Options{GOARCH: "386"})
@@ -89,4 +93,20 @@ func Run(id, tier, only string) (code int) {
 		}
 	}
 	return r.Finish()
+}
+
+// RunOn executes one property's rules on an already loaded program and returns the raw report.
+func RunOn(p *load.Program, id, tier string) (r *report.Report, err error) {
+	e, ok := registry[id]
+	if !ok {
+		return nil, fmt.Errorf("unknown property %q", id)
+	}
+	r = report.New(id, tier, e.level)
+	defer func() {
+		if x := recover(); x != nil {
+			err = fmt.Errorf("internal error: %v\n%s", x, debug.Stack())
+		}
+	}()
+	e.run(&Ctx{P: p, R: r, Tier: tier})
+	return r, nil
 }
